@@ -9,5 +9,5 @@ CONSTANTS
   RMode = "full"
 CONSTRAINT HW
 POSTCONDITION TraceAccepted
-INVARIANTS NoInterleave
+INVARIANTS TypeOK
 CHECK_DEADLOCK FALSE
